@@ -132,11 +132,10 @@ def eval_planner(run, coq):
 def exhaustive_1d(maxlen, alphabet):
     for n in range(1, maxlen + 1):
         for labels in itertools.product(alphabet, repeat=n):
-            if max(labels) < 0:
-                continue
             for chunks in G.compositions(n):
                 for merge in (False, True):
-                    yield list(labels), (tuple(chunks),), max(labels) + 1 + (1 if labels[0] == 0 else 0), merge
+                    # (all labels missing: one label is requested and none occurs)
+                    yield list(labels), (tuple(chunks),), max(max(labels) + 1 + (1 if labels[0] == 0 else 0), 1), merge
 
 
 def random_2d(rng, n):
